@@ -308,7 +308,7 @@ var binGen = harness.Register(&harness.Facet[exprCase]{
 	Name:     "binary-generated",
 	Rule:     "rapid: operator uniform over the 23 binary operators (a quarter of the cases apply a second operator to the result, `(a op b) op2 d`, so that the Go number kinds otto's operators produce feed the next conversion); each operand a primitive: double (boundary pool, random bit patterns, integer corners around 2^7…2^64), numeric/near-miss/other string (pools or random over four alphabets), boolean, null, undefined; injected as literal (exponent form, plain decimal text, hex), or through Otto.Set as float64/float32/string/bool and every Go integer width that holds the value exactly; one script per case; non-trivial = an operand is not a small integer literal or plain ASCII word; distinct by (operator, a, b, channels)",
 	Quick:    40000,
-	Thorough: 400000,
+	Thorough: 250000,
 	Gen: func(t *rapid.T) exprCase {
 		c := exprCase{Op: rapid.SampledFrom(allBinary).Draw(t, "op"), A: genPrimitive(t), B: genPrimitive(t)}
 		if c.Op != "in" && c.Op != "instanceof" && rapid.IntRange(0, 3).Draw(t, "chain") == 3 {
@@ -345,7 +345,7 @@ var objFacet = harness.Register(&harness.Facet[exprCase]{
 	Name:     "operators-on-objects",
 	Rule:     "rapid: operator over the 23 binary operators and ?:; at least one operand is an O object (plain or Date) whose valueOf/toString each return a primitive, return an object, throw, are undefined, are non-callable or are inherited, and log their call; the other operand is an O object, the same object, a primitive (any channel) or, for in/instanceof, a function/object of the scenery; half of the cases log operand evaluation, a quarter read an operand through a logging accessor; oracle: result by type and bits plus the complete log (operand evaluation, GetValue, valueOf/toString in 8.12.8 order, nothing after a throw, untaken operands never evaluated); every case non-trivial; distinct by the whole case",
 	Quick:    40000,
-	Thorough: 400000,
+	Thorough: 250000,
 	Gen: func(t *rapid.T) exprCase {
 		ops := append(append([]string{}, allBinary...), "?:", "+", "==", "<", ">", "<=", ">=")
 		c := exprCase{Op: rapid.SampledFrom(ops).Draw(t, "op"), Ev: rapid.Bool().Draw(t, "ev")}
@@ -520,7 +520,7 @@ var convFacet = harness.Register(&harness.Facet[convCase]{
 	Name:     "conversion-entry-points",
 	Rule:     "rapid: one conversion entry point or unary operator (+x -x ~x !x typeof, Number() String() Boolean() !!x, x+'' ''+x, x|0 x>>>0 x>>0 x<<0 ~~x for ToInt32/ToUint32, x*1 x-0 x/1 x%Infinity -(-x) for ToNumber, String.fromCharCode(x) for ToUint16, \"abcdefgh\".charAt(x) and .slice(x) for ToInteger) applied to a primitive (any channel), an O object (conversion log compared), or for typeof an undeclared identifier / scenery function or object; non-trivial = operand is not a small integer literal or plain ASCII word; distinct by (form, operand)",
 	Quick:    30000,
-	Thorough: 120000,
+	Thorough: 60000,
 	Gen: func(t *rapid.T) convCase {
 		c := convCase{Form: rapid.SampledFrom(convForms).Draw(t, "form")}
 		switch k := rapid.IntRange(0, 9).Draw(t, "opkind"); {
@@ -570,7 +570,7 @@ var accFacet = harness.Register(&harness.Facet[accCase]{
 	Name:     "go-accessors",
 	Rule:     "rapid: a value (primitive through any channel, or O object) is fetched from the runtime as an otto.Value and Value.ToFloat / ToInteger / ToString / ToBoolean is called from Go; oracle: ToNumber / ToInteger saturated to int64 (NaN→0, ±Inf and beyond → Max/MinInt64, as the method documents) / ToString / ToBoolean of the model, an error exactly when the conversion throws, and the conversion log; non-trivial = operand is not a small integer literal or plain ASCII word; distinct by (accessor, operand)",
 	Quick:    10000,
-	Thorough: 40000,
+	Thorough: 15000,
 	Gen: func(t *rapid.T) accCase {
 		c := accCase{Acc: rapid.SampledFrom([]string{"ToFloat", "ToInteger", "ToString", "ToBoolean"}).Draw(t, "acc")}
 		if k := rapid.IntRange(0, 5).Draw(t, "obj"); k == 5 {
